@@ -16,6 +16,9 @@ pub fn hash_iter(m: &HashMap<u32, u32>) -> u32 {
 pub fn hash_into_iter(m: HashSet<u32>) -> Vec<u32> {
     m.into_iter().collect()
 }
+pub fn hash_handed_over(m: HashSet<u32>, out: &mut Vec<u32>) {
+    out.extend(m);
+}
 pub fn hash_keys(m: &HashMap<u32, u32>) -> Vec<u32> {
     m.keys().copied().collect()
 }
